@@ -198,7 +198,7 @@ Proof.
     split; [eapply same_keys_sorted; eassumption|]. split.
     + unfold ids_complete. rewrite Em, El. assumption.
     + apply update_id_wf; assumption.
-  - destruct IH as [Hs [Hi Hw]]. destruct (flatten_flattened h h' Hw E) as [_ _ Hwf' _ _ _ _ Hrel].
+  - destruct IH as [Hs [Hi Hw]]. destruct (flatten_final_rel h h' Hw E) as [Hwf' Hrel].
     pose proof (flat_rel_keys _ _ Hrel) as Hk. destruct (same_keys_ids _ _ Hk) as [Em El].
     split; [eapply same_keys_sorted; eassumption|]. split; [|assumption].
     unfold ids_complete. rewrite Em, El. assumption.
@@ -283,16 +283,24 @@ Lemma cs_walk_rename g c l : forall off ovf, cs_walk c off ovf (map (rename g) l
 Proof. induction l as [|s t IH]; intros off ovf; cbn [map cs_walk]; [reflexivity|]. change (real_size (rename g s)) with (real_size s).
   change (salign (rename g s)) with (salign s). rewrite !IH. reflexivity. Qed.
 
+Lemma run_end_rename g l : forall off, run_end off (map (rename g) l) = run_end off l.
+Proof. induction l as [|s t IH]; intros off; cbn [map run_end]; [reflexivity|]. apply IH. Qed.
+
+Lemma settle_rename g l e : settle (map (rename g) l) e = (map (rename g) (fst (settle l e)), snd (settle l e)).
+Proof.
+  induction l as [|s t IH]; cbn [map settle]; [reflexivity|]. rewrite IH. destruct (settle t e) as [t' nxt]. cbn [fst snd].
+  change (real_size (rename g s)) with (real_size s). destruct (real_size s =? 0); reflexivity.
+Qed.
+
 Lemma layout_independent_of_names g h :
   flatten (map (rename g) h) = (fst (flatten h), map (rename g) (snd (flatten h))) /\
   code_size (map (rename g) h) = code_size h.
 Proof.
   split.
   - unfold flatten. rewrite pass1_rename. destruct (pass1 0 h); cbn [fst snd]; [|reflexivity].
-    rewrite assign_rename, extend_rename. reflexivity.
+    rewrite assign_rename, extend_rename, run_end_rename. cbn [fst]. rewrite settle_rename. reflexivity.
   - unfold code_size. rewrite cs_walk_rename. reflexivity.
 Qed.
-
 (* ------------------------------------------------------------------ validation order of new_section, C strings *)
 Lemma new_section_validation h name al ord :
   (fst (new_section h name al ord) = EInvalidArgument <-> is_zero_or_pow2 al = false) /\
